@@ -100,6 +100,12 @@ def run_slice_mon(job: dict, prop: str, obligations: Callable[[Counter], int],
                 cfgv["lazy"] = not cfgv["lazy"]
             if job.get("force_lazy") is not None:
                 cfgv["lazy"] = job["force_lazy"]
+            if job.get("rt_every") and (i + v) % job["rt_every"] == 1 and not any(
+                    s_["beh"].get("agent") for s_ in scn["sims"]):
+                # the same scenario in real-time mode (virtual clock, binary-exact factor): the ordering guarantees
+                # are not allowed to depend on it
+                cfgv["rt_factor"] = 0.015625
+                C["runs_real_time_mode"] += 1
             scn_v = dict(scn)
             scn_v["config"] = cfgv
             tr = run_case(scn_v, sched)
